@@ -264,7 +264,12 @@ def prove_lemmas(pid, header, lemmas, chunk=12, timeout=600, tag="lem"):
         def one(i):
             pth = d / ("%s_one_%d.v" % (tag, i))
             pth.write_text(render([i]))
-            return i, coqc(pth, timeout)
+            r = coqc(pth, timeout)
+            if not r.ok and (r.rc in (124, 137, -9, -15) or not (r.err or r.out).strip()):
+                # stopped by the time limit / killed (loaded machine): says nothing about the lemma; once more, longer
+                log("[%s] lemma %d did not finish (rc %s after %.0fs): running it again" % (pid, i, r.rc, r.wall))
+                r = coqc(pth, timeout * 3)
+            return i, r
         with ThreadPoolExecutor(max_workers=NPROC) as ex:
             for i, r in ex.map(one, retry):
                 verdict[i] = r.ok
